@@ -185,7 +185,7 @@ func c31Clone(v reflect.Value) reflect.Value {
 			if fv.IsNil() {
 				continue
 			}
-			s := reflect.MakeSlice(fv.Type(), fv.Len(), fv.Len())
+			s := reflect.MakeSlice(fv.Type(), fv.Len(), fv.Cap()) // keep spare capacity: in-place appends must show
 			reflect.Copy(s, fv)
 			out.Field(i).Set(s)
 		default:
